@@ -827,33 +827,62 @@ fn run_c04(line: &str) -> String {
         if tag != "c04" {
             return None;
         }
-        // (c04 VARIANT (incoming ..) (T..)); the two-argument form is the concrete variant
+        // (c04 VARIANT (incoming ..) (T..)); the two-argument form is the concrete variant;
+        // (c04 tp (incoming) (T..) (header TRACE SPAN FLAGS push|push2)): the incoming ids arrive as a W3C traceparent
         let (variant, args) = match args.len() {
             2 => ("concrete", args),
-            3 => (args[0].as_atom()?, &args[1..]),
+            3 | 4 => (args[0].as_atom()?, &args[1..]),
             _ => return None,
         };
         let incoming = parse_props(&args[0], "incoming")?;
         let tree = parse_list(args[1].as_list()?, false)?;
+        let header = match args.get(2) {
+            None => None,
+            Some(h) => {
+                let (t, a) = h.as_tagged()?;
+                // a sampled traceparent with both ids, instead of (not on top of) incoming props, under `tp` only
+                if t != "header" || a.len() != 4 || variant != "tp" || !incoming.is_empty() {
+                    return None;
+                }
+                let (trace, span, flags) = (a[0].as_u128()?, a[1].as_u64()?, u8::try_from(a[2].as_u64()?).ok()?);
+                let via2 = match a[3].as_atom()? {
+                    "push" => false,
+                    "push2" => true,
+                    _ => return None,
+                };
+                if trace == 0 || span == 0 || flags % 2 == 0 {
+                    return None;
+                }
+                Some((trace, span, flags, via2))
+            }
+        };
+        if let Some((trace, span, ..)) = header {
+            // for the class check the header is what the equivalent incoming props would be
+            let as_props = vec![("trace_id".to_string(), IdVal::Trace(trace)), ("span_id".to_string(), IdVal::Span(span))];
+            if !tp_class(&as_props, &tree) {
+                return None;
+            }
+            return run_variant::<VTp>(incoming, tree, header);
+        }
         Some(match variant {
-            "concrete" => run_variant::<VConcrete>(incoming, tree)?,
-            "assert" => run_variant::<VAssert>(incoming, tree)?,
-            "ref" => run_variant::<VRef>(incoming, tree)?,
-            "box" => run_variant::<VBox>(incoming, tree)?,
-            "arc" => run_variant::<VArc>(incoming, tree)?,
-            "option" => run_variant::<VOption>(incoming, tree)?,
-            "boxdyn" => run_variant::<VBoxDyn>(incoming, tree)?,
-            "arcdyn" => run_variant::<VArcDyn>(incoming, tree)?,
-            "assertdyn" => run_variant::<VAssertDyn>(incoming, tree)?,
-            "slot" => run_variant::<VSlot>(incoming, tree)?,
-            "rngsome" => run_variant::<VRngSome>(incoming, tree)?,
-            "rngnone" => run_variant::<VRngNone>(incoming, tree)?,
-            "rngbox" => run_variant::<VRngBox>(incoming, tree)?,
-            "rngarc" => run_variant::<VRngArc>(incoming, tree)?,
-            "rngassert" => run_variant::<VRngAssert>(incoming, tree)?,
-            "rngdyn" => run_variant::<VRngDyn>(incoming, tree)?,
+            "concrete" => run_variant::<VConcrete>(incoming, tree, None)?,
+            "assert" => run_variant::<VAssert>(incoming, tree, None)?,
+            "ref" => run_variant::<VRef>(incoming, tree, None)?,
+            "box" => run_variant::<VBox>(incoming, tree, None)?,
+            "arc" => run_variant::<VArc>(incoming, tree, None)?,
+            "option" => run_variant::<VOption>(incoming, tree, None)?,
+            "boxdyn" => run_variant::<VBoxDyn>(incoming, tree, None)?,
+            "arcdyn" => run_variant::<VArcDyn>(incoming, tree, None)?,
+            "assertdyn" => run_variant::<VAssertDyn>(incoming, tree, None)?,
+            "slot" => run_variant::<VSlot>(incoming, tree, None)?,
+            "rngsome" => run_variant::<VRngSome>(incoming, tree, None)?,
+            "rngnone" => run_variant::<VRngNone>(incoming, tree, None)?,
+            "rngbox" => run_variant::<VRngBox>(incoming, tree, None)?,
+            "rngarc" => run_variant::<VRngArc>(incoming, tree, None)?,
+            "rngassert" => run_variant::<VRngAssert>(incoming, tree, None)?,
+            "rngdyn" => run_variant::<VRngDyn>(incoming, tree, None)?,
             "tp" if !tp_class(&incoming, &tree) => return None,
-            "tp" => run_variant::<VTp>(incoming, tree)?,
+            "tp" => run_variant::<VTp>(incoming, tree, None)?,
             _ => return None,
         })
     })()
@@ -898,7 +927,7 @@ fn tp_class(incoming: &PropList, tree: &[T]) -> bool {
     ids.len() == n
 }
 
-fn run_variant<P: Parts>(incoming: PropList, tree: Arc<Vec<T>>) -> Option<String> {
+fn run_variant<P: Parts>(incoming: PropList, tree: Arc<Vec<T>>, header: Option<(u128, u64, u8, bool)>) -> Option<String> {
     let mut verdicts = std::collections::HashMap::new();
     if !collect_verdicts(&tree, &mut verdicts) {
         return None;
@@ -912,7 +941,20 @@ fn run_variant<P: Parts>(incoming: PropList, tree: Arc<Vec<T>>) -> Option<String
         move |actors| {
             Box::new(move || {
                 let incoming = DynProps::of(&incoming);
-                Frame::push(P::rt().ctxt(), &incoming).call(|| run_sync_list::<P>(&tree, &actors));
+                let body = || Frame::push(P::rt().ctxt(), &incoming).call(|| run_sync_list::<P>(&tree, &actors));
+                match header {
+                    None => body(),
+                    // the request's `traceparent` header, pushed the way emit_traceparent documents it
+                    Some((trace, span, flags, via2)) => {
+                        use emit_traceparent::{TraceFlags, Traceparent, Tracestate};
+                        let tp = Traceparent::new(emit::TraceId::from_u128(trace), emit::SpanId::from_u64(span), TraceFlags::from_u8(flags));
+                        if via2 {
+                            emit_traceparent::push(tp, Tracestate::new_raw("")).call(body)
+                        } else {
+                            tp.push().call(body)
+                        }
+                    }
+                }
             })
         },
         |t| {
@@ -1221,7 +1263,28 @@ fn gen_c04(rng: &mut Rng, tier: Tier, n: usize) -> Vec<String> {
         let variant = if rng.chance(1, 4) { "concrete" } else { *rng.pick(&VARIANTS) };
         let tp = variant == "tp";
         let mut g = Gen { rng: &mut *rng, next_id: 0, budget, max_depth: 6, used_span: Vec::new(), used_trace: Vec::new(), tp };
-        let incoming = if tp { g.tp_incoming() } else { g.id_props("incoming", 5) };
+        // under `tp` one case in three receives its incoming ids as a sampled W3C traceparent (any odd flags byte)
+        let header = if tp && g.rng.chance(1, 3) {
+            let trace = ((g.rng.next() as u128) << 64) | (g.rng.next() as u128) | 1;
+            let span = g.rng.next() | 1;
+            g.used_span.push(span);
+            let flags = match g.rng.below(4) {
+                0 => 1,
+                1 => 3,
+                2 => 0xff,
+                _ => g.rng.below(128) * 2 + 1,
+            };
+            Some(Sexp::tagged("header", vec![Sexp::num(trace), Sexp::num(span), Sexp::num(flags), Sexp::atom(if g.rng.bool() { "push" } else { "push2" })]))
+        } else {
+            None
+        };
+        let incoming = if header.is_some() {
+            Sexp::tagged("incoming", vec![])
+        } else if tp {
+            g.tp_incoming()
+        } else {
+            g.id_props("incoming", 5)
+        };
         let mut items = Vec::new();
         // under the traceparent context (and now and then elsewhere): repeated polls of one span on changing threads
         if tp || g.rng.chance(1, 10) {
@@ -1234,7 +1297,11 @@ fn gen_c04(rng: &mut Rng, tier: Tier, n: usize) -> Vec<String> {
                 break;
             }
         }
-        out.push(Sexp::tagged("c04", vec![Sexp::atom(variant), incoming, Sexp::list(items)]).to_string());
+        let mut top = vec![Sexp::atom(variant), incoming, Sexp::list(items)];
+        if let Some(h) = header {
+            top.push(h);
+        }
+        out.push(Sexp::tagged("c04", top).to_string());
     }
     out
 }
